@@ -102,6 +102,14 @@ def ingest (st : State) (p q : String) : State × List String :=
   let (d', _) := applyBatch (getReplica st p) (getReplica st q).applied
   (setReplica st p d', [s!"ok heads={showHashes d'.heads}"])
 
+/-- both replicas exchange everything they have applied, `fuel` times -/
+def syncLoop : Nat → Doc → Doc → Doc × Doc
+  | 0, p, q => (p, q)
+  | fuel + 1, p, q =>
+    let q' := (applyBatch q p.applied).1
+    let p' := (applyBatch p q'.applied).1
+    syncLoop fuel p' q'
+
 def exec (st : State) (toks : List String) : State × List String :=
   match toks with
   | ["crdt.patch.apply", r, _pid, h1, h2, obj, ps] =>
@@ -147,11 +155,12 @@ def exec (st : State) (toks : List String) : State × List String :=
     let offered := if after == "-" then dq.applied ++ dq.queue else dq.applied
     let (d', _) := applyBatch (getReplica st p) offered
     (setReplica st p d', [s!"ok heads={showHashes d'.heads}"])
-  -- the protocol runs both ways against a copy of `q`: what `p` sends may release changes queued at `q`,
-  -- which then come back
+  -- the protocol runs both ways against a copy of `q` until quiet: what one side sends may release
+  -- changes queued at the other, which then travel back
   | ["crdt.patch.sync", p, q] =>
-    let (dq', _) := applyBatch (getReplica st q) (getReplica st p).applied
-    let (d', _) := applyBatch (getReplica st p) dq'.applied
+    let dp := getReplica st p
+    let dq := getReplica st q
+    let d' := (syncLoop (dp.queue.length + dq.queue.length + 2) dp dq).1
     (setReplica st p d', [s!"ok heads={showHashes d'.heads}"])
   | ["crdt.patch.isolate", _p, hs] =>
     match unhxList hs with
